@@ -8,6 +8,7 @@ import (
 	"context"
 	"crypto/tls"
 	"encoding/base64"
+	"errors"
 	"fmt"
 	"io"
 	"math/rand"
@@ -54,7 +55,12 @@ type dcfg struct {
 	Seed       int64          `json:"seed"`
 	OnStatus   bool           `json:"on_status_error,omitempty"` // install an OnStatusError callback
 	ViaPackage bool           `json:"via_ws_Dial,omitempty"`     // dial through ws.Dial / ws.DefaultDialer
+	// VetoAt: 0 no OnHeader callback; -1 a callback that only records; k >= 1 a
+	// callback that returns errVeto at its k-th invocation.
+	VetoAt int `json:"on_header_veto_at,omitempty"`
 }
+
+var errVeto = errors.New("c10: OnHeader veto")
 
 func (c *dcfg) extraText() string {
 	var b strings.Builder
@@ -178,6 +184,7 @@ func genDcfg(t *rapid.T, withURL bool) (dcfg, string) {
 	c.WBuf = rapid.SampledFrom([]int{0, 0, 16, 64, 300, 65536}).Draw(t, "wbuf")
 	c.Seed = rapid.Int64().Draw(t, "seed")
 	c.OnStatus = rapid.Bool().Draw(t, "onstatus")
+	c.VetoAt = rapid.SampledFrom([]int{0, 0, 0, -1, -1, 1, 1, 2, 3, 4}).Draw(t, "vetoat")
 	return c, portForm
 }
 
@@ -343,6 +350,93 @@ type outcome struct {
 	cbStatus int
 	cbReason string
 	cbBytes  []byte
+	// OnHeader callback observations
+	vetoAt       int
+	hdrCalls     []kv // arguments of every invocation (copied inside the callback)
+	hdrVetoed    bool
+	hdrAfterVeto int // invocations after the callback had returned an error
+}
+
+// headerHook installs the recording / vetoing OnHeader callback.
+func (o *outcome) headerHook(d *ws.Dialer, vetoAt int) {
+	o.vetoAt = vetoAt
+	if vetoAt == 0 {
+		return
+	}
+	d.OnHeader = func(k, v []byte) error {
+		if o.hdrVetoed {
+			o.hdrAfterVeto++
+			return nil
+		}
+		o.hdrCalls = append(o.hdrCalls, kv{string(k), string(v)})
+		if len(o.hdrCalls) == vetoAt {
+			o.hdrVetoed = true
+			return errVeto
+		}
+		return nil
+	}
+}
+
+// otherHeaders lists, in order, the (name, value) pairs of the header lines of
+// the head in sent that are not one of the five websocket headers; only lines
+// with a colon, blanks (SP, HT) around name and value removed.
+func otherHeaders(sent []byte) []kv {
+	lines, _, _ := respgen.SplitLines(sent)
+	var out []kv
+	for i, l := range lines {
+		if i == 0 || l == "" {
+			continue
+		}
+		c := strings.IndexByte(l, ':')
+		if c < 0 {
+			break // the dialer cannot get past such a line
+		}
+		name, v := strings.Trim(l[:c], " \t"), strings.Trim(l[c+1:], " \t")
+		switch {
+		case asciiFoldEq(name, "upgrade"), asciiFoldEq(name, "connection"), asciiFoldEq(name, "sec-websocket-accept"),
+			asciiFoldEq(name, "sec-websocket-protocol"), asciiFoldEq(name, "sec-websocket-extensions"):
+		default:
+			out = append(out, kv{name, v})
+		}
+	}
+	return out
+}
+
+// judgeOnHeader checks the OnHeader contract: the callback sees the
+// non-websocket headers in order (a prefix of them if the handshake stops
+// early, all of them on success), is never called again after it returned an
+// error, and that error is what the dialer returns. vetoDue reports that the
+// response is such that the k-th non-websocket header exists.
+func judgeOnHeader(o *outcome) (msg string, vetoDue bool) {
+	if o.vetoAt == 0 {
+		return "", false
+	}
+	want := otherHeaders(o.sent)
+	vetoDue = o.vetoAt > 0 && len(want) >= o.vetoAt
+	if o.hdrAfterVeto > 0 {
+		return fmt.Sprintf("OnHeader was called %d more time(s) after it had returned an error", o.hdrAfterVeto), vetoDue
+	}
+	if len(o.hdrCalls) > len(want) {
+		return fmt.Sprintf("OnHeader called %d times, the response has %d non-websocket headers", len(o.hdrCalls), len(want)), vetoDue
+	}
+	for i, c := range o.hdrCalls {
+		if !asciiFoldEq(c.K, want[i].K) || c.V != want[i].V {
+			return fmt.Sprintf("OnHeader call %d got (%q, %q), the response's non-websocket header %d is (%q, %q)", i+1, c.K, c.V, i+1, want[i].K, want[i].V), vetoDue
+		}
+	}
+	if o.hdrVetoed {
+		if o.err != errVeto {
+			return fmt.Sprintf("OnHeader returned an error at call %d, the dialer returned %v", o.vetoAt, o.err), vetoDue
+		}
+		return "", vetoDue
+	}
+	if o.err == errVeto {
+		return "the dialer returned the callback's error although the callback never returned it", vetoDue
+	}
+	if o.err == nil && len(o.hdrCalls) != len(want) {
+		return fmt.Sprintf("success, but OnHeader saw %d of %d non-websocket headers", len(o.hdrCalls), len(want)), vetoDue
+	}
+	return "", vetoDue
 }
 
 // statusHook installs the recording OnStatusError callback.
@@ -392,6 +486,7 @@ func upgradeSeeded(c *dcfg, respond func(key string) []byte, sizes []int, eofWit
 	if c.OnStatus {
 		o.statusHook(&d)
 	}
+	o.headerHook(&d, c.VetoAt)
 	if reseed {
 		rand.Seed(c.Seed)
 	}
@@ -456,7 +551,17 @@ func judge(o *outcome, r *respgen.Response, cfg respgen.Config, cl respgen.Class
 	if msg := judgeStatusError(o); msg != "" {
 		return msg
 	}
+	msg, vetoDue := judgeOnHeader(o)
+	if msg != "" {
+		return msg
+	}
+	if o.hdrVetoed {
+		return "" // refused by the callback, reported as such (checked above)
+	}
 	verdict := cl.Verdict
+	if verdict == respgen.MustSucceed && vetoDue {
+		return fmt.Sprintf("valid response with %d non-websocket headers: OnHeader was to veto the %d-th, but was called %d times (err %v)", len(otherHeaders(o.sent)), o.vetoAt, len(o.hdrCalls), o.err)
+	}
 	if verdict == respgen.MustFail && hx.Known(sigFold) {
 		if r2, had := withoutFoldOnly(r); had && respgen.Classify(r2, cfg).Verdict != respgen.MustFail {
 			hx.Exclude(sigFold)
@@ -870,6 +975,7 @@ func dialOnce(c *dcfg, r *respgen.Response, sizes []int) (rec *dialRec, conn net
 	if c.OnStatus {
 		o.statusHook(&d)
 	}
+	o.headerHook(&d, c.VetoAt)
 	rand.Seed(c.Seed)
 	var br *bufio.Reader
 	func() {
